@@ -371,6 +371,62 @@ fn native_one<T: Nat>(cfg: &RunCfg, extra: &mut Extra, lo_exp: i32, hi_exp: i32)
                 "normalize(Rad(y))": Rad(y).normalize().0.to64(), "y": y.to64()}));
         }
     }
+    // arithmetic on angles IS arithmetic on the underlying number: bitwise, every spelling
+    for i in 0..n.min(20_000) {
+        let mut rng = Rng::for_case(cfg.seed, if tag == "f32" { "c13_arith_f32" } else { "c13_arith_f64" }, i);
+        let x = T::from64(rng.uniform(-800.0, 800.0));
+        let y = T::from64(rng.uniform(0.1, 800.0) * if rng.bool() { 1.0 } else { -1.0 });
+        let s = T::from64(match rng.below(4) {
+            0 => rng.pick(&[3.0, 10.0, 49.0, 7.0, 0.1]),
+            _ => rng.uniform(0.05, 50.0),
+        });
+        evals += 1;
+        let bits = |v: T| v.to64().to_bits();
+        macro_rules! both_units {
+            ($A:ident) => {{
+                let (a, b) = ($A(x), $A(y));
+                let mut bad: Option<&str> = None;
+                let mut chk = |name: &'static str, got: T, exp: T| {
+                    if bits(got) != bits(exp) && bad.is_none() {
+                        bad = Some(name);
+                    }
+                };
+                chk("a + b", (a + b).0, x + y);
+                chk("&a + &b", (&a + &b).0, x + y);
+                chk("a - b", (a - b).0, x - y);
+                chk("a * s", (a * s).0, x * s);
+                chk("&a * s", (&a * s).0, x * s);
+                chk("a / s", (a / s).0, x / s);
+                chk("&a / s", (&a / s).0, x / s);
+                chk("a / b", a / b, x / y);
+                chk("a % b", (a % b).0, x % y);
+                chk("-a", (-a).0, -x);
+                let mut t = a;
+                t += b;
+                chk("a += b", t.0, x + y);
+                let mut t = a;
+                t -= b;
+                chk("a -= b", t.0, x - y);
+                let mut t = a;
+                t *= s;
+                chk("a *= s", t.0, x * s);
+                let mut t = a;
+                t /= s;
+                chk("a /= s", t.0, x / s);
+                let mut t = a;
+                t %= b;
+                chk("a %= b", t.0, x % y);
+                let sum: $A<T> = [a, b, a].iter().sum();
+                chk("Sum", sum.0, T::from64(0.0) + x + y + x);
+                bad
+            }};
+        }
+        let bad = both_units!(Rad).or(both_units!(Deg));
+        if let Some(name) = bad {
+            fail("arithmetic", format!("{name} on angles {x:?}, {y:?}, scalar {s:?} does not equal the operation on the underlying numbers (bitwise)"), json!({"x": x.to64(), "y": y.to64(), "s": s.to64()}), extra);
+            break;
+        }
+    }
     // +-0 round trip exactly
     let z: Rad<T> = Deg::from(Rad(T::from64(0.0))).into();
     if z.0 != T::from64(0.0) {
